@@ -60,6 +60,10 @@ def run(R):
     R.rule("C18-R5", "rule bodies are conjunctions: in the chaining helper the accumulated solutions are replaced by the solutions of "
                      "each premise in turn, under every accumulated binding, one level deeper; the premise loop is only left when the "
                      "premises are exhausted (or after the replacement), and only then are the solutions added to the answers")
+    R.rule("C18-R6", "bindings are made by unification only: in the backward chainer a substitution (HashMap<String, Term>) is written "
+                     "nowhere but in unify_terms, after both sides were resolved - a plain insert elsewhere binds a variable without "
+                     "comparing it with the value it already has in the same pattern (`?X p ?X` would match `a p b`)")
+    _r6(R)
     helper = R.body("C18-R1", "Reasoner::backward_chaining_helper", crate="datalog")
     ren = R.body("C18-R1", "backward_chaining::rename_rule_variables", crate="datalog")
     if helper is None or ren is None:
@@ -283,3 +287,32 @@ def r3_r4_r5(R, helper):
         ext = [x for x in helper.calls() if x.name() in ("extend", "append") and x.bb not in oblocks and len(x.args) >= 2
                and helper.alias_root(x.args[1]) == helper.alias_root(acc_l)]
         R.ob("C18-R5", "answers", "the solutions of the complete body are added to the answers after the premise loop", len(ext) >= 1, where=helper.where(c.ln))
+
+
+def _r6(R):
+    prog = R.prog
+    SUB = "HashMap<alloc::string::String, shared::terms::Term"
+    ut = prog.one("backward_chaining::unify_terms", crate="datalog")
+    writers = {}
+    for b in prog.bodies.values():
+        if b.crate != "datalog" or "backward_chaining" not in b.file or "::tests::" in b.key:
+            continue
+        for c in b.calls():
+            if c.name() in ("insert", "entry", "extend", "remove", "retain", "get_mut", "or_insert", "or_insert_with") and c.args:
+                pl = F.op_place(c.args[0])
+                ty = b.local_ty(pl["l"]).replace("&mut ", "").replace("&", "") if pl is not None else ""
+                if pl is not None and ty.startswith("std::collections::hash::map::" + SUB):
+                    writers.setdefault(b.key, []).append(c)
+    R.ob("C18-R6", "unify-writes", "unify_terms is where variables get bound (found %d writes there)" % len(writers.get(ut.key, []) if ut else []),
+         ut is not None and len(writers.get(ut.key, [])) >= 1, where=ut.where() if ut else None)
+    for k, cs in sorted(writers.items()):
+        if ut is not None and k == ut.key:
+            # inside unify_terms: every write is dominated by the two resolve_term calls
+            res = [c for c in ut.calls() if c.name() == "resolve_term"]
+            ok = len(res) >= 2 and all(all(ut.dominates(r.bb, c.bb) for r in res[:2]) for c in cs)
+            R.ob("C18-R6", "resolved-first", "every binding made by unify_terms is made after both terms were resolved", ok, where=ut.where())
+            continue
+        b = prog.bodies[k]
+        R.ob("C18-R6", "writer:" + b.short, "%s does not write a substitution itself (it calls unification)" % b.short, False, where=b.where(cs[0].ln),
+             detail="a binding made with a plain insert is not compared with the binding the variable already has: a pattern that repeats a "
+             "variable matches facts with different values in those positions, and answers that are not entailed are returned")
